@@ -129,6 +129,9 @@ MUTANTS: List[Tuple[str, List[Tuple[str, str, str]], List[Tuple[str, str]]]] = [
     ('f27-retry-catches-cancellation', [(M, "                if not isinstance(error, Exception):\n", "                if False:\n")], [('C12', 'RT-2'), ('C13', 'RT-2')]),
     ('f38-stopiteration-through-executor', [(N, "functools.partial(_run_in_executor, run_method, *args, **kwargs),", "functools.partial(run_method, *args, **kwargs),")], [('C02', 'EX-6')]),
     ('ex5-wrapper-drops-kwargs', [(N, "        return run_method(*args, **kwargs)\n    except StopIteration as ex:", "        return run_method(*args)\n    except StopIteration as ex:")], [('C17', 'EX-5')]),
+    ('f40-verdict-without-hidden', [(M, "self._node_storage.get_switch_result(pred_node_id, with_hidden=True).node_id,", "self._node_storage.get_switch_result(pred_node_id).node_id,")], [('C03', 'RD-3')]),
+    ('f36a-switch-error-not-contained', [(M, "            if dag.is_oneof:\n                # Inside a OneOf subgraph the error is contained like a node failure: the subgraph fails\n                # and the next one can be started.\n                self._node_storage.set_node_result(node_id, ex)\n                await self.__unlock_descendants(node_id)\n                await self.__unlock_itself(dag.dest)\n                return None\n\n", "")], [('C10', 'OO-9')]),
+    ('f36a-contained-without-dest-notify', [(M, "                await self.__unlock_descendants(node_id)\n                await self.__unlock_itself(dag.dest)\n                return None\n", "                return None\n")], [('C02', 'WK-c')]),
     ('rt6-default-without-opt-in', [(M, "            except Exception:\n                if node.use_default:\n                    return run_node_default(node, **kwargs)\n\n                raise", "            except Exception:\n                return run_node_default(node, **kwargs)")], [('C12', 'RT-6')]),
     ('ev1-complete-before-run', [(C, "        await ctx.emit_on_pipeline_start()\n", "        await ctx.emit_on_pipeline_start()\n        await ctx.emit_on_pipeline_complete(result=None)\n")], [('C14', 'EV-1')]),
     ('ev1-error-path-no-complete', [(C, "            result = PipelineResult(pipeline_id=pipeline_id, value=None, error=ex)\n            await ctx.emit_on_pipeline_complete(result=result)\n", "            result = PipelineResult(pipeline_id=pipeline_id, value=None, error=ex)\n")], [('C14', 'EV-1')]),
@@ -248,9 +251,6 @@ REPAIRS: List[Tuple[str, List[Tuple[str, str, str]], List[Tuple[str, str, str]]]
      [('C11', 'RC-9', 'error exit')]),
     ('repair-ev6-isolate-managers', [(E, "            if callback:\n                await callback(ctx=self, **kwargs)", "            if callback:\n                try:\n                    await callback(ctx=self, **kwargs)\n                except Exception:  # noqa: BLE001\n                    pass")],
      [('C14', 'EV-6', 'raising event manager')]),
-    ('repair-oo9-contain-switch-error', [(M, "        except Exception as ex:\n            # The switch task is the only place where the error can be seen, so the run method must be notified.\n            await self.__raise_exc(ex)",
-                                         "        except Exception as ex:\n            if dag.is_oneof:\n                self._node_storage.set_node_result(node_id, ex)\n                await self.__unlock_descendants(node_id)\n                return None\n            else:\n                await self.__raise_exc(ex)")],
-     [('C10', 'OO-9', '__raise_exc(ex)')]),
     ('repair-cc8-own-edges', [(M, "        node_predecessors = set(self.dag.graph.predecessors(node_id))", "        node_predecessors = set(dag.predecessors(node_id))")],
      [('C09', 'CC-8', 'dependencies inside a sub-dag')]),
     ('repair-lk8-consult-cancelling', [(M, "                await self.ctx.emit_on_node_complete(node_id=node_id, error=error)\n\n                n_attempts += 1",
